@@ -181,12 +181,12 @@ class Prog:
                 A('  if (!strcmp(name, "%s")) {' % nmq)
                 if self.dyn_str:
                     A("    if (!s->c.%s) s->c.%s = malloc(%d);" % (nmq, nmq, o["size"]))
-                A("    memcpy(s->c.%s, b, n); s->%s_counter = n;" % (nmq, nmq))
+                A("    memset(s->c.%s, 0, %d); memcpy(s->c.%s, b, n); s->%s_counter = n;" % (nmq, o["size"], nmq, nmq))   # (beyond the length: zeros, known to the model)
                 if o["term"]:
                     A("    if (n < %d) s->c.%s[n] = 0;" % (o["size"], nmq))
                 A("    return 0; }")
             elif o["kind"] == "raw":
-                A('  if (!strcmp(name, "%s")) { memcpy(&s->c.%s, b, n); s->%s_counter = n; return 0; }' % (nmq, nmq, nmq))
+                A('  if (!strcmp(name, "%s")) { memset(&s->c.%s, 0, sizeof s->c.%s); memcpy(&s->c.%s, b, n); s->%s_counter = n; return 0; }' % (nmq, nmq, nmq, nmq, nmq))
         A("  return 1; }")
         A("static long %s_getstate(void *v) { return ((%s_ST *)v)->state; }" % (n, n))
         A("static void %s_setstate(void *v, long k) { ((%s_ST *)v)->state = k; }" % (n, n))
